@@ -109,3 +109,11 @@ Theorem C14_amino_names_are_source : forall b, ImpProofs.is_byte b ->
   Bio.Model.GoGlobals.g_sequtil_aminoToName b = ImpProofs.lit_amino b.
 Proof. exact ImpProofs.amino_table_is_source. Qed.
 Print Assumptions C14_amino_names_are_source.
+
+(* ---- the property itself, about the translated source: Translate is the standard genetic code ------- *)
+From Bio.Proofs Require ImpProofsW.
+Theorem C14_translate_exact_is_source : forall fuel dst s, ImpProofs.all_bytes s -> (length s / 3 < fuel)%nat ->
+  ImpGen.imp_sequtil_Translate fuel dst s
+  = match std_translate s with Some l => GoSem.Ret (dst ++ l) | None => GoSem.Panics end.
+Proof. exact ImpProofsW.translate_exact_src. Qed.
+Print Assumptions C14_translate_exact_is_source.
